@@ -53,6 +53,7 @@ ASSUMPTIONS = [
 TRUSTED = ['Lean 4.33 kernel', 'harness/props/c04.py + Driver/C04.lean', 'generator reach (see histogram)',
            'thermo/chemicals correlations (Psat, Tsat, Dortmund-UNIFAC γ), flexsolve']
 
+NSOLVE = [0]          # number of VLE._solve_v calls in this process (to see a solver run out of iterations)
 S_NOISE = {}          # id(chemical) -> numerical noise of its liquid entropy, kJ/K/kg
 
 
@@ -170,6 +171,7 @@ def setup():
 
     orig_solve = vm.VLE._solve_v
     def w_solve(self, T, P, gas_conversion=None, liquid_conversion=None):
+        NSOLVE[0] += 1
         if REC is None: return orig_solve(self, T, P, gas_conversion, liquid_conversion)
         REC['steps'] = []
         REC['nsolve'] += 1
@@ -328,6 +330,8 @@ class Run:
         self.s = None; self.th = None; self.kind = None; self.ids = None
         self.last = None          # (snapshot before, pair, resolved a, resolved b) of the last vle op
         self.two_phase_solves = 0
+        self.last_sfx = set()
+        self.prev_sfx = set()
         self.last_hs_ok = True
         self.ref_two = None
         self.last_products = None
@@ -477,6 +481,8 @@ class Run:
         finally:
             REC = None
         self.last_out_of_iter = rec['nsolve'] >= int(vm.VLE.maxiter) + 1
+        self.prev_sfx = getattr(self, 'last_sfx', set())
+        self.last_sfx = set()
         self.last = (snap, pair, a, b)
         self.last_products = None if err is not None else (arr(s.imol['l']).copy(), arr(s.imol['g']).copy(), float(s.T), float(s.P))
         self.key.append(pair)
@@ -641,7 +647,8 @@ class Run:
             if ka == 'T' and r > tol and spec_ok:
                 tol = max(tol, self.bracket_width('H', a, P1))
             if r > tol:
-                self.fail(f'H-not-reproduced:{pair}:{ncase}{suffix()}', f'specified H={b!r}, stream.H={float(s.H)!r} ({r:.3g} kJ/kg, allowed {tol:.3g}); T={T1}, P={P1}')
+                sfx = suffix(); self.last_sfx.add(sfx)
+                self.fail(family_sig(f'H-not-reproduced:{pair}:{ncase}', ka, sfx), f'specified H={b!r}, stream.H={float(s.H)!r} ({r:.3g} kJ/kg, allowed {tol:.3g}); T={T1}, P={P1}')
         s_noisy = any(th.chemicals.tuple[i].ID in S_NOISY for i in idx)
         if kb == 'S' and s_noisy: self.tags.append('S-noisy-skip')
         if kb == 'S' and not s_noisy and hs_ok:
@@ -675,7 +682,8 @@ class Run:
                             sfx = ':gas-below-temperature-bracket' if T1 <= T_low + 1e-6 else ':gas-below-temperature-bracket:not-at-bracket-end'
                     except Exception:
                         pass
-                self.fail(f'S-not-reproduced:{pair}:{ncase}{sfx}', f'specified S={b!r}, stream.S={float(s.S)!r} ({r:.3g} kJ/K/kg, allowed {tol:.3g}); T={T1}, P={P1}')
+                self.last_sfx.add(sfx)
+                self.fail(family_sig(f'S-not-reproduced:{pair}:{ncase}', ka, sfx), f'specified S={b!r}, stream.S={float(s.S)!r} ({r:.3g} kJ/K/kg, allowed {tol:.3g}); T={T1}, P={P1}')
 
         if ncase != 'many':
             if kb == 'V' and ncase == 'one':
@@ -692,7 +700,7 @@ class Run:
                 if lo != lo or hi != hi:
                     self.tags.append('bracket-raised'); lo, hi = 0., 1.
                 if not (min(lo, hi) - 1.5e-6 <= b <= max(lo, hi) + 1.5e-6) or not (min(lo, hi) - 1e-4 <= Vr <= max(lo, hi) + 1e-4):
-                    self.fail(f'V-not-met:{pair}{unconv}', f'specified V={b}, result V={Vr}; V at ∓resolution: {lo}, {hi} (T={T1}, P={P1})')
+                    self.fail(unconv_sig(f'V-not-met:{pair}', unconv), f'specified V={b}, result V={Vr}; V at ∓resolution: {lo}, {hi} (T={T1}, P={P1})')
 
         # ---------------- oracle D: phase boundary (TP) ----------------------------------
         z = mol / mol.sum()
@@ -726,7 +734,7 @@ class Run:
             if not inert: self.tags.append('fug<1e-6' if r < 1e-6 else 'fug<1e-5' if r < 1e-5 else 'fug>=1e-5')
             if inert: self.tags.append('fug-inert<1e-5' if r < 1e-5 else 'fug-inert>=1e-5')
             if r > 2e-5 and (not inert or gas_only_TP):
-                self.fail(f'iso-fugacity:{pair}{":gas" if inert else ""}{unconv}', f'liquid fugacities {flq} vs vapour fugacities {fgs} (max relative gap {r:.3g}) at T={T1}, P={P1}')
+                self.fail(unconv_sig(f'iso-fugacity:{pair}{":gas" if inert else ""}', unconv), f'liquid fugacities {flq} vs vapour fugacities {fgs} (max relative gap {r:.3g}) at T={T1}, P={P1}')
 
         # ---------------- oracle F + model line: ideal package vs Raoult Rachford–Rice ------
         if self.kind == 'ideal' and pair in ('TP', 'TV', 'PV') and (not inert or gas_only_TP):
@@ -738,12 +746,12 @@ class Run:
             Vpy = rr_python(zz, K, zl, zh)
             self.emit(f'ideal {fl(zl)} {fl(zh)} | {vec(zz)} | {vec(K)}', f'V={fl(Vimpl)}')
             if abs(Vpy - Vimpl) > 1e-5:
-                self.fail(f'ideal-vs-RR:{pair}{unconv}', f'ideal package: vapour fraction {Vimpl} but Raoult Rachford–Rice gives {Vpy} (z={zz}, K={K}, light {zl}, heavy {zh})')
+                self.fail(unconv_sig(f'ideal-vs-RR:{pair}', unconv), f'ideal package: vapour fraction {Vimpl} but Raoult Rachford–Rice gives {Vpy} (z={zz}, K={K}, light {zl}, heavy {zh})')
             elif two:
                 xr = zz / (1 + Vpy * (K - 1)); yr = K * xr
                 xi = l1 / (l1.sum() + Fh); yi = g1 / (g1.sum() + Fl)
                 if max(np.abs(xr - xi).max(), np.abs(yr - yi).max()) > 1e-5:
-                    self.fail(f'ideal-vs-RR:{pair}{unconv}', f'ideal package: phase compositions x={xi}, y={yi} but Raoult Rachford–Rice gives x={xr}, y={yr}')
+                    self.fail(unconv_sig(f'ideal-vs-RR:{pair}', unconv), f'ideal package: phase compositions x={xi}, y={yi} but Raoult Rachford–Rice gives x={xr}, y={yr}')
 
     # ---- helpers that run extra real flashes ----------------------------------------
     def bracket_V(self, pair, T1, P1):
@@ -783,13 +791,16 @@ class Run:
         if kb == 'S' and any(c.ID in S_NOISY and (snap[0][i] + snap[1][i]) > 0 for i, c in enumerate(self.th.chemicals.tuple)):
             self.tags.append('S-noisy-skip'); return
         res = []
+        out_iter = False
         for kk in (1.0, k):
             c = restore(self.th, snap, kk)
             bb = b * kk if kb in ('H', 'S') else b
+            n0 = NSOLVE[0]
             try:
                 c.vle(**{ka: a, kb: bb})
             except Exception as e:
                 self.tags.append('scale-raised'); return
+            out_iter = out_iter or (NSOLVE[0] - n0 >= int(vm.VLE.maxiter) + 1)
             res.append((arr(c.imol['l']), arr(c.imol['g']), float(c.T), float(c.P)))
         (l1, g1, T1, P1), (lk, gk, Tk, Pk) = res
         Ftot = (l1 + g1).sum()
@@ -801,7 +812,8 @@ class Run:
         if dev > allowed: allowed += 2 * self.resolution_spread(l1, g1, T1, P1, ka)
         if dev > allowed or abs(Tk - T1) > 5e-3 or abs(Pk - P1) > 1e-5 * P1 + 2.:
             sfx = self.fallback_suffix(ka, kb, ((l1, g1, T1, P1), (lk / k, gk / k, Tk, Pk)))
-            self.fail(f'scaling:{pair}{sfx}', f'{pair} flash of k·feed (k={k}): products/k differ from products of the feed by {dev:.3g} of the total flow; T {T1} vs {Tk}, P {P1} vs {Pk}')
+            sfx = sfx or self.t_first_scaling_suffix(ka, kb, snap, out_iter, self.last_sfx)
+            self.fail(family_sig(f'scaling:{pair}', ka, sfx, scaling=True), f'{pair} flash of k·feed (k={k}): products/k differ from products of the feed by {dev:.3g} of the total flow; T {T1} vs {Tk}, P {P1} vs {Pk}')
 
 
 def _resolution_spread(self, l1, g1, T1, P1, ka):
@@ -820,6 +832,36 @@ def _resolution_spread(self, l1, g1, T1, P1, ka):
     self.tags.append('resolution-spread')
     return float(np.abs(out[0] - out[1]).max() / (l1 + g1).sum())
 Run.resolution_spread = _resolution_spread
+
+
+KNOWN_SUFFIXES = (':gas-above-pressure-bracket', ':inert:solver-out-of-iterations', ':gas:non-equilibrium-split-at-bracket-end')
+
+
+def family_sig(base, ka, sfx, scaling=False):
+    """One signature per documented MECHANISM (pinned by its predicate), whatever the pair (TH / TS, PH / PS), the quantity (H / S)
+    or the scaling oracle (replicas / same-stream history) through which it surfaces; everything else keeps its specific name."""
+    if sfx in KNOWN_SUFFIXES:
+        side = 'T-first' if ka == 'T' else 'P-first'
+        return (f'scaling:{side}{sfx}' if scaling else f'not-reproduced:{side}:many{sfx}')
+    return base + sfx
+
+
+def unconv_sig(base, unconv):
+    return 'unconverged-solve:aitken-oscillation' if unconv == ':unconverged-solve' else base + unconv
+
+
+def _t_first_scaling_suffix(self, ka, kb, snap, out_of_iter, primary_sfx):
+    """T,H / T,S scaling failures that are consequences of the two documented T-first behaviours with inert material"""
+    if not (ka == 'T' and kb in ('H', 'S')): return ''
+    chems = self.th.chemicals
+    tot = snap[0] + snap[1]
+    li, hi = list(chems._light_indices), list(chems._heavy_indices)
+    gas = bool(li) and tot[li].sum() > 0
+    solute = bool(hi) and (tot[hi] * chems._heavy_solutes).sum() > 0
+    if out_of_iter and (gas or solute): return ':inert:solver-out-of-iterations'
+    if gas and ':gas-above-pressure-bracket' in primary_sfx: return ':gas-above-pressure-bracket'
+    return ''
+Run.t_first_scaling_suffix = _t_first_scaling_suffix
 
 
 def _fallback_suffix(self, ka, kb, results):
@@ -882,9 +924,9 @@ def _revle(self, t):
     if dev > allowed: allowed += 2 * self.resolution_spread(l1, g1, T1, P1, ka)
     if dev > allowed or abs(Tk - T1) > 5e-3 or abs(Pk - P1) > 1e-5 * P1 + 2.:
         sfx = self.fallback_suffix(ka, kb, ((l1, g1, T1, P1), (lk / k, gk / k, Tk, Pk)))
-        if ka == 'T' and kb in ('H', 'S') and (out1 or getattr(self, 'last_out_of_iter', False)):
-            sfx = ':inert:solver-out-of-iterations'     # one of the two T,H / T,S solves stopped at maxiter (known finding)
-        self.fail(f'scaling-history:{pair}{sfx}', f'{pair} flash, every flow of the same stream multiplied by k={k}, same {pair} flash again: '
+        sfx = sfx or self.t_first_scaling_suffix(ka, kb, snap, out1 or getattr(self, 'last_out_of_iter', False),
+                                                 self.last_sfx | getattr(self, 'prev_sfx', set()))
+        self.fail(family_sig(f'scaling-history:{pair}', ka, sfx, scaling=True), f'{pair} flash, every flow of the same stream multiplied by k={k}, same {pair} flash again: '
                   f'products/k differ from the first products by {dev:.3g} of the total flow; T {T1} vs {Tk}, P {P1} vs {Pk}; '
                   f'vapour before {g1}, after/k {gk / k}')
 Run.revle = _revle
